@@ -812,6 +812,27 @@ func checkC15(c *Check) {
 	for f := range sub.funcs {
 		c.SawFunc(f)
 	}
+	// the *_action directives of authorize_sender are parsed by the shared action parser: a `reject` that loses its
+	// flag there is an `ignore` (the verdict is computed, logged, and the message goes on)
+	c06ActionParsed(c, "R10")
+	// which source block – and so which checks – a sender gets is decided on the normalised address, domain rule
+	// included: a spelling that misses `source example.org { check { authorize_sender } }` (trailing dot, case) falls
+	// through to default_source and is never asked for authorization
+	c.Rule("R11", "the pipeline selects the sender's source block with the normalised address for table, full-address and domain rules (C04.R1r)", 1)
+	{
+		sub := newCheck("C04", c.P, c.Tier)
+		sub.Rule("R1r", "", 0)
+		sub.Rule("R2", "", 0)
+		c04Selectors(sub)
+		for _, o := range sub.obs {
+			if o.Rule == "R1r" {
+				c.Hold("R11", o.Key, o.posRaw, o.OK, o.Msg)
+			}
+		}
+		for f := range sub.funcs {
+			c.SawFunc(f)
+		}
+	}
 }
 
 // c15Refusal: the expression is a check result carrying a reason – X.Apply(CheckResult{Reason: non-nil}), a
